@@ -52,7 +52,7 @@ def _word(block, pos, length):
 
 def _bits(acc):
     """absolute bit range (set of bit indexes, 0 = MSB side irrelevant: use (byte,bit)) of an item"""
-    L = acc.length
+    L = int(getattr(acc, "_gv_decl_len", acc.length))
     if acc.bitpos is None:
         return {(acc.pos + i, b) for i in range(L) for b in range(8)}
     out = set()
@@ -135,18 +135,32 @@ def gen_records(ctx, rng, quick):
         if m["kind"] == "cfg":
             cfg_by_plat.setdefault(m["platform"], m)
     notwritable_fmt = GeckoConstants.EXCEPTION_MESSAGE_NOT_WRITABLE
+    # the cell an item occupies is what the TABLE declares (Word / Time: two bytes; a Size attribute; else one byte): the
+    # declaration is recorded as the table hands it to the item's constructor, not read back from the item under test
+    from geckolib.driver.accessor import GeckoStructAccessor as _Base
+    _orig_init = _Base.__init__
+
+    def _recording_init(self, struct_, tag, pos, type, bitpos, items, size, maxitems, rw):
+        _orig_init(self, struct_, tag, pos, type, bitpos, items, size, maxitems, rw)
+        self._gv_decl_len = 2 if type in ("Word", "Time") else (int(size) if size is not None else 1)
+
     for m in mods:
         cap = Capture()
         ss = GeckoStructure(cap.sync)
         sa = GeckoAsyncStructure(cap.sync, cap.asyn)
-        for st in (ss, sa):
-            tb = packs.table(m, st)
-            st.accessors = dict(tb.accessors)
+        _Base.__init__ = _recording_init
+        try:
+            for st in (ss, sa):
+                tb = packs.table(m, st)
+                st.accessors = dict(tb.accessors)
+        finally:
+            _Base.__init__ = _orig_init
         tags = list(ss.accessors)
         bits = {t: _bits(ss.accessors[t]) for t in tags}
         for tag in tags:
             acc_s, acc_a = ss.accessors[tag], sa.accessors[tag]
             shape = packs.shape_of(acc_s)
+            shape["len"] = int(getattr(acc_s, "_gv_decl_len", shape["len"]))
             if shape["type"] == "Temp":
                 continue        # temperature values are C14's subject (needs the unit item of the cfg table)
             key = (shape["type"], shape["len"], shape["bitpos"], shape["mask"], shape["rw"] != "none", shape["nitems"])
@@ -162,7 +176,7 @@ def gen_records(ctx, rng, quick):
                 contents = contents[:1]
             others = [t for t in tags if t != tag and not (bits[t] & bits[tag])
                       and abs(ss.accessors[t].pos - acc_s.pos) < 3]
-            pos, L = acc_s.pos, acc_s.length
+            pos, L = acc_s.pos, shape["len"]
             if pos + L > 1024:
                 # not addressable inside the block (C18 reports the item); nothing to write
                 recs.append({"shape": shape, "pos": pos, "existing": 0, "path": "sync",
